@@ -13,6 +13,13 @@
              payload_unit_start on the first, consecutive continuity counters across frames;
              rejected -> nothing emitted, nothing changed, and only if the frame need not be accepted
      csend   vbi_dvb_mux_cor with the logged buffer sizes: the same rules on the concatenated output
+     cpart   ONE vbi_dvb_mux_cor call with a buffer of b bytes: the bytes of the calls of a frame are
+             collected; when the frame is used up (left = 0) the rules of send apply to all of them FOR THE
+             CONFIGURATION IN FORCE AT THE FIRST CALL of the frame - the one the packet was generated under
+     setdid  vbi_dvb_mux_set_data_identifier between two calls (also while a packet is partly delivered):
+             TRUE and the getter follows iff the value is in 0x10-0x1F / 0x99-0x9B, else FALSE and no change;
+             it takes effect for the packets generated after it
+     setsize vbi_dvb_mux_set_pes_packet_size between two calls: the getters report the rounded sizes
      mreset  vbi_dvb_mux_reset: the property does not say where the continuity counter goes on (libzvbi steps
              back by one "to make clear that continuity was lost"): any value, consecutive from there
      same    a run marked cmp must emit, accepted frame by accepted frame, the bytes of the previous run
@@ -22,8 +29,10 @@
 EXTENDS DvbMuxRules, Json, IOUtils
 
 Log == ndJsonDeserialize(IOEnv.TRACEFILE)
-VARIABLES l, c, cc, sent, pes, tsb, outs, refouts, rawpar, resets
-tvars == <<l, c, cc, sent, pes, tsb, outs, refouts, rawpar, resets>>
+VARIABLES l, c, cc, sent, pes, tsb, outs, refouts, rawpar, resets,
+          acc,      \* bytes of the coroutine calls of the frame in delivery (cpart)
+          gc        \* the configuration that frame's packet was generated under
+tvars == <<l, c, cc, sent, pes, tsb, outs, refouts, rawpar, resets, acc, gc>>
 Ev == Log[l]
 
 RawDefault == [offset |-> 132, samples |-> 720]
@@ -37,16 +46,16 @@ TMux == /\ Ev.a = "mux" /\ Ev.ok
         /\ <<Ev.min, Ev.max>> = RoundSizes(Ev.req.min, Ev.req.max)
         /\ c' = [ts |-> Ev.ts, pid |-> Ev.pid, did |-> Ev.did, min |-> Ev.min, max |-> Ev.max]
         /\ cc' = 0 /\ sent' = <<>> /\ pes' = <<>> /\ tsb' = <<>> /\ rawpar' = RawDefault /\ resets' = 0
-        /\ refouts' = (IF Ev.cmp THEN outs ELSE <<>>) /\ outs' = <<>>
+        /\ refouts' = (IF Ev.cmp THEN outs ELSE <<>>) /\ outs' = <<>> /\ acc' = <<>> /\ gc' = c'
 TRawPar == /\ Ev.a = "rawpar" /\ rawpar' = [offset |-> Ev.offset, samples |-> Ev.samples]
-           /\ UNCHANGED <<c, cc, sent, pes, tsb, outs, refouts, resets>>
+           /\ UNCHANGED <<c, cc, sent, pes, tsb, outs, refouts, resets, acc, gc>>
 
-PesCfg == [did |-> c.did, min |-> c.min, max |-> c.max]
+PesCfg(g) == [did |-> g.did, min |-> g.min, max |-> g.max]
 RawWanted(frame) == [i \in 1..Len(RawItems(frame)) |->
                        [line |-> RawItems(frame)[i].line, pos |-> rawpar.offset - 132,
                         ys |-> [k \in 1..rawpar.samples |-> RealSample(RawItems(frame)[i].line, k - 1)]]]
-PacketOK(X, frame, pts) ==
-  /\ PesConformant(X, PesCfg, pts)
+PacketOK(g, X, frame, pts) ==
+  /\ PesConformant(X, PesCfg(g), pts)
   /\ Ascending(LineSeq(X))
   /\ Carried(X) = [j \in 1..Len(Sliced(frame)) |-> NormLine(Sliced(frame)[j])]
   /\ RawOf(X).ok /\ RawOf(X).lines = RawWanted(frame)
@@ -55,33 +64,57 @@ CutTs(b) == [i \in 1..(Len(b) \div TSL) |-> [h |-> SubSeq(b, (i - 1) * TSL + 1, 
                                               pay |-> SubSeq(b, (i - 1) * TSL + 5, i * TSL)]]
 Payload(T) == Cat([i \in 1..Len(T) |-> T[i].pay])
 
-\* bytes = everything emitted for the frame
-Emitted(frame, pts, ok, bytes) ==
+\* bytes = everything emitted for the frame, g = the configuration in force when it was handed in
+EmittedC(g, frame, pts, ok, bytes) ==
   IF ~ok
-  THEN /\ bytes = <<>> /\ ~MustAcceptN(frame, c, rawpar.samples)
+  THEN /\ bytes = <<>> /\ ~MustAcceptN(frame, g, rawpar.samples)
        /\ UNCHANGED <<cc, sent, pes, tsb, outs>>
-  ELSE /\ ~MustRejectN(frame, c, rawpar.samples)
+  ELSE /\ ~MustRejectN(frame, g, rawpar.samples)
        /\ LET X == IF c.ts THEN Payload(CutTs(bytes)) ELSE bytes IN
           /\ c.ts => Len(bytes) % TSL = 0 /\ Len(bytes) > 0
                       /\ TsConformant(CutTs(bytes), X, c.pid, IF cc < 0 THEN bytes[4] % 16 ELSE cc)
-          /\ PacketOK(X, frame, <<pts[1] % 8, pts[2]>>)
+          /\ PacketOK(g, X, frame, <<pts[1] % 8, pts[2]>>)
           /\ cc' = (IF c.ts THEN ((IF cc < 0 THEN bytes[4] % 16 ELSE cc) + Len(bytes) \div TSL) % 16 ELSE cc)
           /\ pes' = pes \o X /\ tsb' = (IF c.ts THEN tsb \o bytes ELSE tsb)
           /\ sent' = Append(sent, [lines |-> [j \in 1..Len(Sliced(frame)) |-> NormLine(Sliced(frame)[j])], pts |-> <<pts[1] % 8, pts[2]>>])
        /\ outs' = Append(outs, bytes)
        /\ refouts # <<>> => Len(outs) < Len(refouts) /\ refouts[Len(outs) + 1] = bytes
 
+Emitted(frame, pts, ok, bytes) == EmittedC(c, frame, pts, ok, bytes)
+
 TSend == /\ Ev.a = "send"
          /\ (c.ts /\ Ev.ok) => \A i \in 1..Len(Ev.pk) : Len(Ev.pk[i]) = TSL        \* one callback per transport packet
          /\ (~c.ts /\ Ev.ok) => Len(Ev.pk) = 1                                    \* one callback per PES packet
          /\ Emitted(Ev.frame, Ev.pts, Ev.ok, Cat(Ev.pk))
-         /\ UNCHANGED <<c, refouts, rawpar, resets>>
+         /\ UNCHANGED <<c, refouts, rawpar, resets, acc, gc>>
 TCsend == /\ Ev.a = "csend"
           /\ Ev.ok => Ev.left = 0
           /\ Emitted(Ev.frame, Ev.pts, Ev.ok, Ev.out)
+          /\ UNCHANGED <<c, refouts, rawpar, resets, acc, gc>>
+(* one coroutine call.  acc = <<>>: the first call of the frame (a successful call with room stores at
+   least one byte) - the packet is generated now, under c.  Later calls only hand out the rest. *)
+TCpart == /\ Ev.a = "cpart"
+          /\ LET g == IF acc = <<>> THEN c ELSE gc
+                 bytes == acc \o Ev.out IN
+             IF Ev.ok /\ Ev.left > 0
+             THEN /\ Ev.out # <<>> /\ Len(Ev.out) = Ev.b                 \* more to come: the buffer was filled
+                  /\ acc' = bytes /\ gc' = g
+                  /\ UNCHANGED <<cc, sent, pes, tsb, outs>>
+             ELSE /\ Ev.ok => (Len(Ev.out) <= Ev.b /\ Ev.out # <<>>)
+                  /\ EmittedC(g, Ev.frame, Ev.pts, Ev.ok, bytes)
+                  /\ acc' = <<>> /\ gc' = g
           /\ UNCHANGED <<c, refouts, rawpar, resets>>
+TSetDid == /\ Ev.a = "setdid"
+           /\ Ev.ok = DidLegal(Ev.req)
+           /\ Ev.did = (IF DidLegal(Ev.req) THEN Ev.req ELSE c.did)
+           /\ c' = [c EXCEPT !.did = Ev.did]
+           /\ UNCHANGED <<cc, sent, pes, tsb, outs, refouts, rawpar, resets, acc, gc>>
+TSetSize == /\ Ev.a = "setsize" /\ Ev.ok
+            /\ <<Ev.min, Ev.max>> = RoundSizes(Ev.req[1], Ev.req[2])
+            /\ c' = [c EXCEPT !.min = Ev.min, !.max = Ev.max]
+            /\ UNCHANGED <<cc, sent, pes, tsb, outs, refouts, rawpar, resets, acc, gc>>
 TReset == /\ Ev.a = "mreset" /\ cc' = -1 /\ resets' = resets + 1
-          /\ UNCHANGED <<c, sent, pes, tsb, outs, refouts, rawpar>>
+          /\ UNCHANGED <<c, sent, pes, tsb, outs, refouts, rawpar, acc, gc>>
 
 NormF(fr) == [i \in 1..Len(fr) |-> [pts |-> <<fr[i].pts[1] % 8, fr[i].pts[2]>>,
                                       lines |-> [j \in 1..Len(fr[i].lines) |-> NormLine(fr[i].lines[j])]]]
@@ -97,15 +130,16 @@ TDemux == /\ Ev.a = "demux"
              ELSE /\ resets = 0
                   /\ NormF(Ev.d) = (IF Len(Wanted) > 0 /\ PLen(pes, 0) + 6 = TSP THEN Tail(Wanted) ELSE Wanted)
                   /\ NormF(Feed(tsb, S0(TRUE, TRUE, c.pid, "all"), Len(tsb)).d.out) = NormF(Ev.d)
-          /\ UNCHANGED <<c, cc, sent, pes, tsb, outs, refouts, rawpar, resets>>
+          /\ UNCHANGED <<c, cc, sent, pes, tsb, outs, refouts, rawpar, resets, acc, gc>>
 
 \* end of a run: a compared run has emitted as many packets as the run before it
-TDone == /\ Ev.a = "done" /\ (refouts # <<>> => Len(outs) = Len(refouts))
-         /\ UNCHANGED <<c, cc, sent, pes, tsb, outs, refouts, rawpar, resets>>
+TDone == /\ Ev.a = "done" /\ (refouts # <<>> => Len(outs) = Len(refouts)) /\ acc = <<>>
+         /\ UNCHANGED <<c, cc, sent, pes, tsb, outs, refouts, rawpar, resets, acc, gc>>
 
-TNext == l <= Len(Log) /\ l' = l + 1 /\ (TMux \/ TRawPar \/ TSend \/ TCsend \/ TReset \/ TDemux \/ TDone)
+TNext == l <= Len(Log) /\ l' = l + 1 /\ (TMux \/ TRawPar \/ TSend \/ TCsend \/ TCpart \/ TSetDid \/ TSetSize \/ TReset \/ TDemux \/ TDone)
 TInit == /\ l = 1 /\ c = [ts |-> FALSE, pid |-> 0, did |-> 16, min |-> TSP, max |-> MaxPes] /\ cc = 0 /\ sent = <<>>
-         /\ pes = <<>> /\ tsb = <<>> /\ outs = <<>> /\ refouts = <<>> /\ rawpar = RawDefault /\ resets = 0
+         /\ pes = <<>> /\ tsb = <<>> /\ outs = <<>> /\ refouts = <<>> /\ rawpar = RawDefault /\ resets = 0 /\ acc = <<>>
+         /\ gc = [ts |-> FALSE, pid |-> 0, did |-> 16, min |-> TSP, max |-> MaxPes]
 TSpec == TInit /\ [][TNext]_tvars
 
 TraceAccepted == LET n == TLCGet("stats").diameter - 1 IN
